@@ -303,6 +303,26 @@ def layer4(args):
         if not over and st == "raised":
             viols.append(("representable", "raises", f"runs of {n1}/{n2} options fit but build raised",
                           dict(layer=4, n1=n1, n2=n2, repeated=repeated)))
+    # over-long runs that can be *found* in the shared array (spelled by earlier, legal runs)
+    for total, repeated in itertools.product((15, 16, 17), (False, True)):
+        opts = distinct_options(40)
+        pool = [opts[0]] * 40 if repeated else opts
+        first = hdr.SOMEIPSDEntry(sd_type=T.OfferService, service_id=1, instance_id=2, major_version=3, ttl=4,
+                                  minver_or_counter=5, options_1=tuple(pool[:8]), options_2=tuple(pool[8:total]))
+        for where in (1, 2):
+            kw = {"options_%d" % where: tuple(pool[:total])}
+            second = hdr.SOMEIPSDEntry(sd_type=T.FindService, service_id=9, instance_id=8, major_version=7, ttl=6,
+                                       minver_or_counter=5, **kw)
+            st, v = try_unrepresentable([first, second], dict(
+                disc=f"found-run{where}-{total}" if total > 15 else "found-run-fits",
+                what=f"entry whose run {where} of {total} options is already spelled by two earlier runs", total=total,
+                repeated=repeated, where=where))
+            n += 1
+            outcomes[(st, total > 15)] = outcomes.get((st, total > 15), 0) + 1
+            viols += v
+            if total <= 15 and st == "raised":
+                viols.append(("representable", "raises", f"found run of {total} options fits but build raised",
+                              dict(layer=4, total=total, repeated=repeated, where=where)))
     # number of distinct shared options around the 8-bit index limit
     for total in (254, 255, 256, 257, 300):
         opts = distinct_options(total)
